@@ -1092,6 +1092,26 @@ unsafe fn forward_search<F: Fn(u8) -> bool>(
     None
 }
 
+#[cfg(jomini_verif)]
+pub mod verif_hooks {
+    //! Verification hooks (compiled only with `--cfg jomini_verif`): expose the private scanners.
+    #![allow(missing_docs)]
+    pub fn split_at_scalar(d: &[u8]) -> (&[u8], &[u8]) {
+        let (s, rest) = super::split_at_scalar(d);
+        (s.as_bytes(), rest)
+    }
+    pub fn split_at_scalar_fallback(d: &[u8]) -> (&[u8], &[u8]) {
+        let (s, rest) = super::split_at_scalar_fallback(d);
+        (s.as_bytes(), rest)
+    }
+    pub fn parse_quote_scalar(d: &[u8]) -> Option<(&[u8], &[u8])> {
+        super::parse_quote_scalar(d).ok().map(|(s, rest)| (s.as_bytes(), rest))
+    }
+    pub fn parse_quote_scalar_fallback(d: &[u8]) -> Option<(&[u8], &[u8])> {
+        super::parse_quote_scalar_fallback(d).ok().map(|(s, rest)| (s.as_bytes(), rest))
+    }
+}
+
 #[cfg(test)]
 mod tests {
     use super::*;
